@@ -343,6 +343,35 @@ def rfc6793_expected(a: Attribute) -> Attribute:
     return ASPath.make_aspath(segs, asn4=True) if changed else a
 
 
+def together_laws(attrs: list[Attribute], asn4: bool) -> list[LawFail]:
+    """Attributes whose decoding looks at the other attributes of the UPDATE (RFC 6793 4.2.3: AS_PATH with
+    AS4_PATH, AGGREGATOR with AS4_AGGREGATOR, and AGGREGATOR deciding whether the AS4_ attributes are used), sent
+    TOGETHER: each of them is read back as it was written, in whichever order they are on the wire."""
+    neg = Sess.get(False, asn4)
+    fails: list[LawFail] = []
+    try:
+        parts = [bytes(a.pack_attribute(neg)) for a in attrs]
+    except Exception as e:  # noqa: BLE001
+        return [LawFail('pack-raises', err_name(e))]
+    for order in (parts, list(reversed(parts))):
+        b = b''.join(order)
+        reset_caches()
+        try:
+            coll = decode_attr_block(b, neg)
+        except Exception as e:  # noqa: BLE001
+            fails.append(LawFail('together:unpack(pack(x))-raises', err_name(e), b))
+            continue
+        for a in attrs:
+            want = a if asn4 else rfc6793_expected(a)
+            got = coll.get(int(a.ID))
+            if got is None or not (got == want):
+                fails.append(LawFail('together:unpack(pack(x))!=x', f'{klass_name(a)} sent with {[klass_name(x) for x in attrs if x is not a]}: {want} | {got}', b))
+                break
+        if fails:
+            break
+    return fails
+
+
 def attr_laws(a: Attribute, asn4: bool = True) -> tuple[list[LawFail], dict]:
     fails: list[LawFail] = []
     facts: dict = {}
